@@ -139,8 +139,11 @@ TRASH_STATES = ['absent', 'sticky', 'nonsticky', 'link_sticky', 'link_nonsticky'
 ALT_STATES = ['absent', 'dir', 'file', 'link_other']
 
 
+ODD_HOMES = ['CORP\\jdoe', 'bob (old', 'staff[1', 'c++dev', 'a|b', 'x{2}', 'q?', '^h$', 'dot.name', 'sp ace', 'per%cent', 'é']
+
+
 def make_layout(rng, nvol=None, home_mode=None, xdg=None, uid=None, trash_states=None,
-                alt_states=None, nested=None, workname=None):
+                alt_states=None, nested=None, workname=None, homename='u'):
     """the skeleton of a world: home, volumes, .Trash / .Trash-uid states.
     Returns a dict with 'steps', 'mounts', 'env', 'uid', 'home', 'vols',
     'work' (a directory per volume where user files go), 'aux'."""
@@ -151,7 +154,9 @@ def make_layout(rng, nvol=None, home_mode=None, xdg=None, uid=None, trash_states
         uid = rng.choice([1000, 1000, 1000, 0, 501, 65534, 123456])
     if home_mode is None:
         home_mode = rng.choice(['root', 'root', 'homevol', 'uvol'])
-    home = '/home/u'
+    # (the login name is a name like any other: 'DOMAIN\\user' of winbind, blanks, brackets ... whatever is special to regular
+    # expressions, globs and format strings; callers that pass homename get such names)
+    home = '/home/' + homename
     steps.append(['d', '/home', 0o755])
     steps.append(['d', home, 0o755])
     if home_mode == 'homevol':
